@@ -40,6 +40,8 @@ pub enum Op {
     Rewrite(u16),
     /// create many small untracked files at once (a pending map far beyond 64 KiB)
     BulkCreate(u16),
+    /// create 101-149 or 201-249 small files (more changes than two internal batches of 50)
+    BulkSmall(u16),
 }
 
 pub const BIG_SIZES: [usize; 9] = [
@@ -430,6 +432,18 @@ impl Hist {
                     self.work.insert(p, c);
                 }
                 format!("create {} files under two/bulk-{}", n, batch)
+            }
+            Op::BulkSmall(k) => {
+                let n = if k % 2 == 0 { 101 + pick(*k, 49) } else { 201 + pick(*k, 49) };
+                self.counter += 1;
+                let batch = self.counter;
+                for i in 0..n {
+                    let p = format!("two/many-{}/c{:03}.txt", batch, i);
+                    let c = format!("many {} {}\n", batch, i).into_bytes();
+                    self.env.write_file(&p, &c);
+                    self.work.insert(p, c);
+                }
+                format!("create {} files under two/many-{}", n, batch)
             }
             Op::CreateIgnored(k) => {
                 let p = IGNORED[pick(*k, IGNORED.len())].to_string();
